@@ -29,9 +29,10 @@ class Deadlock(Exception):
 class Sched:
     WAIT = 60.0
 
-    def __init__(self, prefix=(), trace_codes=()):
+    def __init__(self, prefix=(), trace_codes=(), schedule_main=False):
         self.prefix = list(prefix)
         self.trace_codes = set(trace_codes)
+        self.schedule_main = schedule_main     # also decide, at every Thread.start(), whether workers run first
         self.threads = []
         self.main = threading.Semaphore(0)
         self.choices = []
@@ -53,6 +54,28 @@ class Sched:
             raise Deadlock(f"thread {th.tid} never rescheduled")
 
     # ---- driver side --------------------------------------------------------------------
+    def at_start(self):
+        """Decision point inside Thread.start(): the starting (main) thread continues (choice 0) or an
+        already started worker runs one segment first (choice k >= 1; counted as a preemption of main)."""
+        if not self.schedule_main or self.driven:
+            return
+        while True:
+            enabled = [t for t in self.threads if not t.finished and t.os_started]
+            if not enabled:
+                return
+            k = len(self.choices)
+            c = self.prefix[k] if k < len(self.prefix) else 0
+            if c > len(enabled):
+                raise Divergence(f"choice {c} at start-point {k} but only {len(enabled)} workers enabled")
+            self.points.append(((-1,) + tuple(t.tid for t in enabled), True))
+            self.choices.append(c)
+            if c == 0:
+                return
+            th = enabled[c - 1]
+            th.sem.release()
+            if not self.main.acquire(timeout=self.WAIT):
+                raise Deadlock(f"thread {th.tid} neither yielded nor finished")
+
     def drive(self):
         if self.driven:
             return
@@ -90,7 +113,13 @@ def thread_class(sched: Sched):
             self.sem = threading.Semaphore(0)
             self.finished = False
             self.exc = None
+            self.os_started = False
             sched.threads.append(self)
+
+        def start(self):
+            super().start()
+            self.os_started = True
+            sched.at_start()
 
         def run(self):
             sched.by_ident[threading.get_ident()] = self
